@@ -349,26 +349,32 @@ SRTLA-internal — `C09_relayable_iff`), in arrival order, byte for byte, each o
 (type 0x8002) appears twice, back to back (`relayCopies`: the latency fast path inside
 `process_uplink_packet` and then the normal forward list; always both, because the fast path is taken
 exactly when a client address is known).  Nothing else is ever sent to the client: no internal datagram,
-nothing invented, nothing reordered, nothing from any other arm of the event loop. -/
-theorem C09_relay_run (s : Sys F) (hnd : (ids s.links).Nodup) (hck : s.clientKnown = true) (evs : List Ev) :
+nothing invented, nothing reordered, nothing from any other arm of the event loop.
+`hnr`: over events / runs that keep the link set (no `Ev.reload`); a reload keeps the whole record of every retained link
+(`Props/SysReload.lean: reload_frame`) and the theorem applies again from the state after it. -/
+theorem C09_relay_run (s : Sys F) (hnd : (ids s.links).Nodup) (hck : s.clientKnown = true) (evs : List Ev)
+    (hnr : NoReload evs) :
     clientLog (run s evs).2 = (relayables (ids s.links) evs).flatMap relayCopies ∧
     (∀ d, relayCopies d = if Codec.getPacketTypeS d = some 0x8002 then [d, d] else [d]) := by
   refine ⟨?_, fun _ => rfl⟩
-  rw [run_client_log s hnd evs, hck, relayLog_true]
+  rw [run_client_log s hnd evs hnr, hck, relayLog_true]
 
 /-- The three readings of `C09_relay_run`: (1) every relayable datagram is delivered, in arrival order
 (the relayable arrivals are a subsequence of the client log); (2) everything delivered is, byte for byte,
 an uplink datagram of the run that arrived on a link's conn id, has two or more bytes and is not
 SRTLA-internal — no internal datagram reaches the client, nothing is invented; (3) the client stays
-known. -/
-theorem C09_relay_run_reading (s : Sys F) (hnd : (ids s.links).Nodup) (hck : s.clientKnown = true) (evs : List Ev) :
+known.
+`hnr`: over events / runs that keep the link set (no `Ev.reload`); a reload keeps the whole record of every retained link
+(`Props/SysReload.lean: reload_frame`) and the theorem applies again from the state after it. -/
+theorem C09_relay_run_reading (s : Sys F) (hnd : (ids s.links).Nodup) (hck : s.clientKnown = true) (evs : List Ev)
+    (hnr : NoReload evs) :
     (relayables (ids s.links) evs).Sublist (clientLog (run s evs).2) ∧
     (∀ d ∈ clientLog (run s evs).2, ∃ now connId, Ev.uplink now connId d ∈ evs ∧
       2 ≤ d.length ∧ (∃ l ∈ s.links, l.core.connId = connId) ∧
       ∀ pt, Codec.getPacketTypeS d = some pt → ¬ Internal pt) ∧
     (∀ now connId d, Ev.uplink now connId d ∈ evs → 2 ≤ d.length → (∃ l ∈ s.links, l.core.connId = connId) →
       (∀ pt, Codec.getPacketTypeS d = some pt → ¬ Internal pt) → d ∈ clientLog (run s evs).2) := by
-  rw [(C09_relay_run s hnd hck evs).1]
+  rw [(C09_relay_run s hnd hck evs hnr).1]
   have hids : ∀ c, c ∈ ids s.links ↔ ∃ l ∈ s.links, l.core.connId = c := by
     intro c; simp [ids]
   refine ⟨sublist_flatMap_relayCopies _, ?_, ?_⟩
@@ -382,22 +388,26 @@ theorem C09_relay_run_reading (s : Sys F) (hnd : (ids s.links).Nodup) (hck : s.c
 
 /-- **Before a client is known** nothing is relayed, over any stretch of events that contains no non-empty
 client datagram; the first non-empty client datagram makes the client known, and from the next event on
-the log is as in `C09_relay_run`. -/
+the log is as in `C09_relay_run`.
+`hnr`: over events / runs that keep the link set (no `Ev.reload`); a reload keeps the whole record of every retained link
+(`Props/SysReload.lean: reload_frame`) and the theorem applies again from the state after it. -/
 theorem C09_relay_run_from_unknown (s : Sys F) (hnd : (ids s.links).Nodup) (hck : s.clientKnown = false) :
-    (∀ evs, noClient evs = true → clientLog (run s evs).2 = []) ∧
-    (∀ pre now pkt post, noClient pre = true → pkt ≠ [] →
+    (∀ evs, NoReload evs → noClient evs = true → clientLog (run s evs).2 = []) ∧
+    (∀ pre now pkt post, NoReload (pre ++ .client now pkt :: post) → noClient pre = true → pkt ≠ [] →
       clientLog (run s (pre ++ .client now pkt :: post)).2 = (relayables (ids s.links) post).flatMap relayCopies) := by
   constructor
-  · intro evs h
-    rw [run_client_log s hnd evs, hck, relayLog_false_noClient _ _ h]
-  · intro pre now pkt post h hne
-    rw [run_client_log s hnd _, hck, relayLog_false_split _ _ _ _ _ h (by cases pkt <;> simp_all)]
+  · intro evs hnr h
+    rw [run_client_log s hnd evs hnr, hck, relayLog_false_noClient _ _ h]
+  · intro pre now pkt post hnr h hne
+    rw [run_client_log s hnd _ hnr, hck, relayLog_false_split _ _ _ _ _ h (by cases pkt <;> simp_all)]
 
 /-- The general form, any initial `clientKnown`: the client log is the pure function `relayLog` of the event
-list, the set of conn ids and the initial flag. -/
-theorem C09_relay_run_general (s : Sys F) (hnd : (ids s.links).Nodup) (evs : List Ev) :
+list, the set of conn ids and the initial flag.
+`hnr`: over events / runs that keep the link set (no `Ev.reload`); a reload keeps the whole record of every retained link
+(`Props/SysReload.lean: reload_frame`) and the theorem applies again from the state after it. -/
+theorem C09_relay_run_general (s : Sys F) (hnd : (ids s.links).Nodup) (evs : List Ev) (hnr : NoReload evs) :
     clientLog (run s evs).2 = relayLog (ids s.links) s.clientKnown evs :=
-  run_client_log s hnd evs
+  run_client_log s hnd evs hnr
 
 /-- A run on the example shell (links 7 and 9, client known): a data packet on link 7, an SRTLA ACK
 (internal), an SRT ACK on link 9, a data packet on the unknown conn id 8, a one-byte datagram, a keepalive
